@@ -53,7 +53,7 @@ def summarize(respath, harness, wall):
             for k, v in (r.get('covers') or {}).items():
                 covers[k] += v
             if r['status'] not in ('ok', 'assume_false', 'panic', 'violation', 'infeasible'):
-                details[r['status'] + ': ' + r.get('detail', '')[:300]] += 1
+                details[r['status'] + ': ' + r.get('detail', '')[-600:]] += 1
             for v in r.get('violations') or []:
                 key = (v['kind'], v['msg'])
                 if key not in viol:
